@@ -101,6 +101,115 @@ def impl_refinement(ctx):
         if not r.violated:
             raise tlc.MachineryError('NdnPitImpl with %s should violate %s but TLC found nothing' % (bug, expect))
         ctx.note('NdnPitImpl with %s: TLC counterexample for %s (expected)' % (bug, r.violated))
+    legacy_impl_refinement(ctx)
+
+
+LEGACY_IMPL_INVS = ['TypeOKImpl', 'PendingReachable', 'NoResidueImpl', 'IdleClean', 'OneNode', 'NoEmptyNode', 'NoInternalError']
+LEGACY_IMPL_ACTIONS = ['LExpress', 'LRecvData', 'LRecvNack', 'LAwait', 'LCancelReq', 'LWakeData', 'LWakeNack', 'LWakeTimeout',
+                       'LWakeCancel', 'LWake0', 'LWakeValCancel', 'LValFinish', 'LFire', 'LTick', 'LShutdown', 'LConnect']
+LEGACY_IMPL_WITNESSES = ['W_DataThenTimer', 'W_StaleNode', 'W_CancelledMeetsData', 'W_LateValidator']
+# (switch, what TLC's counterexample must violate, invariants checked in that run, properties checked in that run)
+_R = ('Refines',)
+LEGACY_IMPL_BUGS = [('BugStale', 'NoInternalError', LEGACY_IMPL_INVS, _R),          # KeyError raised into the caller
+                    ('BugStale', 'PendingReachable', ['PendingReachable'], ()),     # ... and a newer Interest loses its node
+                    ('BugCancel', 'NoResidueImpl', LEGACY_IMPL_INVS, _R),
+                    ('BugCancelOrig', 'NoInternalError', ['NoInternalError'], ()),  # InvalidStateError out of _receive
+                    ('BugGuard', 'NoInternalError', LEGACY_IMPL_INVS, _R),
+                    ('BugInPlace', 'Refines', LEGACY_IMPL_INVS, _R),                # a matching Interest is not answered
+                    ('WinLateTimer', 'Refines', LEGACY_IMPL_INVS, _R),
+                    ('WinStrictAbs', 'Refines', LEGACY_IMPL_INVS, _R)]
+
+
+def legacy_impl_cfg(name, ent, maxt, T, defer, reconn, bug, invs=LEGACY_IMPL_INVS, props=('Refines',)):
+    import os
+    p = os.path.join(tlc.BUILD, name + '.cfg')
+    tlc.write_cfg(p, spec='LSpec',
+                  constants={'MaxEntries': ent, 'MaxT': maxt, 'Templates': '<- T_' + T, 'DataSet': '<- D_' + T, 'Verdicts': '<- V_legacy',
+                             'Reasons': '<- R_one', 'MaxNodes': ent, 'Defer': '<- ' + defer, 'Reconn': 'TRUE' if reconn else 'FALSE',
+                             'Bug': '<- ' + bug},
+                  invariants=invs, properties=props)
+    return p
+
+
+class _PositionalPropertyPattern:
+    """This TLC reports a violated action property by position ("Action property line .. of module M is violated"), which
+    harness.tlc does not recognise as a violation (tlc.run would raise MachineryError).  Inside this context the pattern of
+    harness.tlc is widened (a superset of the original one); legacy_impl_run names the property."""
+    def __enter__(self):
+        import re
+        self.old = tlc._RE_PROP
+        tlc._RE_PROP = re.compile(r'(?:Action property|Temporal propert(?:y|ies)) '
+                                  r'(?:line \d+, col \d+ to line \d+, col \d+ of module )?(\S*) ?(?:is|was|were) violated')
+
+    def __exit__(self, *a):
+        tlc._RE_PROP = self.old
+
+
+def legacy_impl_run(cfgp, **kw):
+    """tlc.run on NdnPitLegacyImplMC (call inside _PositionalPropertyPattern); Refines is the only PROPERTY of its configurations"""
+    r = tlc.run('NdnPitLegacyImplMC', cfgp, **kw)
+    if r.violated in ('NdnPitLegacyImpl', 'NdnPitLegacyImplMC', 'temporal'):
+        r.violated = 'Refines'
+    return r
+
+
+def legacy_impl_refinement(ctx):
+    with _PositionalPropertyPattern():
+        _legacy_impl_refinement(ctx)
+
+
+def _legacy_impl_refinement(ctx):
+    """NdnPitLegacyImpl - the legacy front-end's Interest trie of node objects, the futures, and the awaiting coroutines of
+    ndn.app.NDNApp step by step (asyncio 3.12 wait_for) - refines NdnPit (Front = legacy, deviation legacySlowValidator
+    enabled) and keeps its structural invariants; every action and every witness situation is reached; each switch that
+    re-creates a defect of the original code (or opens a window NdnPit's macro-steps do not have) must give a counterexample.
+    All TLC runs of this part go through one small thread pool (most are short: TLC stops at the first violation)."""
+    from concurrent.futures import ThreadPoolExecutor
+    #        label, entries, MaxT, templates, Defer, Reconn
+    cfgs = [('small 2 entries (same + nested names, CanBePrefix, implicit digest)', 2, 2, 'small', 'Def_no', False),
+            ('deferred await + reconnect 2 entries', 2, 2, 'defer', 'Def_both', True),
+            ('lifetime 0, 2 entries', 2, ctx.pick(1, 2), 'life0', 'Def_no', False)]
+    if not ctx.quick:
+        cfgs += [('mid 2 entries, 4 templates, deferred await + reconnect', 2, 2, 'mid', 'Def_both', True),
+                 ('timing 3 entries', 3, 2, 'timing', 'Def_no', False)]
+
+    def one(job):
+        kind, name, expect, invs, props = job
+        if kind == 'm':
+            label, ent, maxt, T, defer, reconn = expect
+            cfgp = legacy_impl_cfg('limpl-' + name, ent, maxt, T, defer, reconn, 'NoBug')
+            return job, legacy_impl_run(cfgp, coverage=True, workers=ctx.pick(4, 8), timeout=3000, tag='limpl-' + name)
+        if kind == 'w':
+            cfgp = legacy_impl_cfg('limpl-' + name, 2, 2, 'small', 'Def_no', False, 'NoBug', invs=[name], props=[])
+        else:
+            cfgp = legacy_impl_cfg('limpl-%s-%s' % (name, expect), 2, 2, 'small', 'Def_no', False, name, invs=invs, props=props)
+        return job, legacy_impl_run(cfgp, workers=2, heavy=False, timeout=900, tag='limpl-' + name)
+    jobs = [('m', '%d-%s' % (i, c[3]), c, None, None) for i, c in enumerate(cfgs)] + \
+           [('w', w, w, None, None) for w in LEGACY_IMPL_WITNESSES] + [('b',) + b for b in LEGACY_IMPL_BUGS]
+    with ThreadPoolExecutor(6) as ex:
+        results = list(ex.map(one, jobs))
+    cov_total = {}
+    for (kind, name, expect, _, _), r in results:
+        if kind == 'm':
+            ctx.add_tlc('NdnPitLegacyImpl refines NdnPit: ' + expect[0], r)
+            if r.violated:
+                ctx.violation('C03/spec/NdnPitLegacyImpl/%s' % r.violated,
+                              'TLC: %s violated in NdnPitLegacyImpl (%s)' % (r.violated, expect[0]), {'trace': r.errtrace})
+            for a, (d, t) in r.coverage.items():
+                cov_total[a] = cov_total.get(a, 0) + t
+        elif kind == 'w':
+            if r.violated != name:
+                raise tlc.MachineryError('vacuous: NdnPitLegacyImpl witness %s not reachable (TLC reported %r)' % (name, r.violated))
+        else:
+            if r.violated != expect:
+                raise tlc.MachineryError('NdnPitLegacyImpl with %s should violate %s but TLC reported %r' % (name, expect, r.violated))
+            ctx.note('NdnPitLegacyImpl with %s: TLC counterexample for %s (expected)' % (name, r.violated))
+    if any(kind == 'm' and r.violated for (kind, _, _, _, _), r in results):
+        return          # TLC stopped at the counterexample: the coverage figures are partial
+    for a in LEGACY_IMPL_ACTIONS:
+        if cov_total.get(a, 0) == 0:
+            raise tlc.MachineryError('vacuous: NdnPitLegacyImpl action %s never taken' % a)
+    ctx.extra.setdefault('action_coverage', {}).update({a: cov_total[a] for a in LEGACY_IMPL_ACTIONS})
 
 
 def replay(ctx, path):
